@@ -97,6 +97,26 @@ Theorem C13_retention : forall (n : nat) (h1 : list (time * op)) (t : time) (o :
 Proof. exact retention. Qed.
 Print Assumptions C13_retention.
 
+(* The same clause for ANY observations the monitor accepts (in particular the
+   Go implementation's, on every generated case): the per-step conditions of the
+   monitor imply retention, so the monitor states no less than the property.
+   (Extra premise: k is not overwritten in h2 by an entry that is expired on
+   arrival — the property lets a cache drop such an entry at once.) *)
+Theorem C13_monitor_retention :
+  forall (capacity : nat) (h1 : list (time * op)) (t : time) (o : op) (h2 : list (time * op))
+         (outs1 : list (option Z)) (out : option Z) (outs2 : list (option Z))
+         (pres1 : list (list key)) (after : list key) (pres2 : list (list key)) (k : key),
+  check_lru capacity (h1 ++ (t, o) :: h2) (outs1 ++ out :: outs2) (pres1 ++ after :: pres2) = true ->
+  length outs1 = length h1 -> length pres1 = length h1 ->
+  use_of o out = Some k -> In k after ->
+  (forall t', ~ In (t', ODel k) h2) ->
+  (forall t' v ttl, In (t', OSet k v ttl) h2 -> 0 <= ttl) ->
+  live_through k ((t, o) :: rev h1) h2 ->
+  (length (nodup N.eq_dec (remove_key k (uses_of h2 outs2))) < capacity)%nat ->
+  In k (last pres2 after).
+Proof. exact monitor_retention. Qed.
+Print Assumptions C13_monitor_retention.
+
 (* Concurrency, generic part (see the header of Proofs/Locked.v for what is and
    is not modelled): for any sequential object `step`, any bodies that compute
    it when run alone, any number of threads each executing
